@@ -111,14 +111,15 @@ func VPH_C11_store() {
 // spins: between two loads there is a sleep of at least a second or a delivered set.
 func VPH_C11_watch() {
 	ch := make(chan []tls.Certificate)
-	good := map[string][]byte{"a-cert.pem": []byte(vpCertPEM), "a-key.pem": []byte(vpKeyPEM)}
-	bad := map[string][]byte{"a-cert.pem": []byte(vpCertPEM)} // key missing
+	good := map[string][]byte{"a-cert.pem": []byte(vpCertPEM), "a-key.pem": []byte(vpKeyPEM), "b-cert.pem": []byte(vpCertPEM), "b-key.pem": []byte(vpKeyPEM)}
+	bad := map[string][]byte{"a-cert.pem": []byte(vpCertPEM), "b-cert.pem": []byte(vpCertPEM)} // keys missing
+	partial := map[string][]byte{"a-cert.pem": []byte(vpCertPEM), "a-key.pem": []byte(vpKeyPEM), "b-cert.pem": []byte(vpCertPEM)} // one key missing
 	calls := 0
 	sent := 0
 	var lastCall int64
 	never := make(chan bool)
 	fin := make(chan bool)
-	script := vp.Choice("script", 3)
+	script := vp.Choice("script", 4)
 	prevUsable := false // did the previous load return new usable material (which is then delivered)?
 	load := func(path string) (map[string][]byte, error) {
 		now := vp.Clock()
@@ -138,6 +139,10 @@ func VPH_C11_watch() {
 		case calls == 2 && script == 1:
 			vp.Cover("load-error")
 			return nil, errTest
+		case calls == 2 && script == 3:
+			// some certificates usable, one not: the working set must stay as it is
+			vp.Cover("partly-unusable-material")
+			return partial, nil
 		case calls == 2:
 			vp.Cover("unchanged")
 			return good, nil
@@ -153,7 +158,7 @@ func VPH_C11_watch() {
 		select {
 		case set := <-ch:
 			sent++
-			vp.Assert(len(set) == 1, "only-usable-sets-are-delivered")
+			vp.Assert(len(set) == 2, "only-complete-usable-sets-are-delivered")
 		case <-fin:
 			vp.Assert(sent >= 1, "working-set-delivered")
 			vp.Assert(sent == 1, "unusable-or-unchanged-material-is-not-delivered-again")
